@@ -90,13 +90,52 @@ static void run(int n, int maxm, const vector<double> &ws, bool layout) {
         } while (m > 0 && mcx::multiset_next(idx, alpha.size()) && !ctx.stopped());
     }
 }
+
+// larger structured graphs: the pairing heap only grows its sibling array beyond five siblings, relaxations only chain over many steps, etc.
+// Every member of a small parametric family: shape x size x weight pattern.
+static void families(bool thorough) {
+    ctx.phase("structured graphs: {star, path, cycle, wheel, complete, two components, ladder} x n in {6,8,12,20,33(,64)} x 4 weight patterns");
+    vector<int> sizes = {6, 8, 12, 20, 33}; if (thorough) sizes.push_back(64);
+    for (int shape = 0; shape < 7; shape++) for (int n : sizes) for (int wp = 0; wp < 4; wp++) {
+        if (shape == 4 && n > 20) continue; if (ctx.stopped()) return; if (!ctx.next()) continue;
+        vector<pair<unsigned, unsigned>> pe;
+        if (shape == 0) for (int i = 1; i < n; i++) pe.push_back({0, (unsigned)i});
+        else if (shape == 1) for (int i = 1; i < n; i++) pe.push_back({(unsigned)i - 1, (unsigned)i});
+        else if (shape == 2) { for (int i = 1; i < n; i++) pe.push_back({(unsigned)i - 1, (unsigned)i}); pe.push_back({(unsigned)n - 1, 0}); }
+        else if (shape == 3) { for (int i = 1; i < n; i++) { pe.push_back({0, (unsigned)i}); pe.push_back({(unsigned)i, (unsigned)(i % (n - 1) + 1)}); } }
+        else if (shape == 4) for (int i = 0; i < n; i++) for (int j = i + 1; j < n; j++) pe.push_back({(unsigned)i, (unsigned)j});
+        else if (shape == 5) { int h = n / 2; for (int i = 1; i < h; i++) pe.push_back({0, (unsigned)i}); for (int i = h + 1; i < n; i++) pe.push_back({(unsigned)i - 1, (unsigned)i}); }
+        else { int h = n / 2; for (int i = 0; i < h; i++) { if (i + 1 < h) { pe.push_back({(unsigned)i, (unsigned)i + 1}); pe.push_back({(unsigned)(h + i), (unsigned)(h + i + 1)}); } pe.push_back({(unsigned)i, (unsigned)(h + i)}); } }
+        vector<E> es; for (size_t k = 0; k < pe.size(); k++) { double w = wp == 0 ? 1 : wp == 1 ? ((k * 7 + 3) % 5) * 0.5 : wp == 2 ? 1 + (k % 3) * 0.75 : (double)((k * k + 1) % 7) + 0.25; es.push_back({pe[k].first, pe[k].second, w}); }
+        string desc = mcx::fmt("structured shape#%d n=%d weights#%d (%zu edges)", shape, n, wp, es.size()); ctx.sample(desc, 1); ctx.count("states"); ctx.count("nontrivial"); ctx.count("transitions", 2 + n);
+        int m = es.size(); vector<shortest_paths::Edge> se; valarray<double> ew(m); for (int i = 0; i < m; i++) { se.push_back({es[i].u, es[i].v}); ew[i] = es[i].w; }
+        auto O = bellman(n, es);
+        double **D1 = new double *[n], **D2 = new double *[n]; for (int i = 0; i < n; i++) { D1[i] = new double[n]; D2[i] = new double[n]; }
+        shortest_paths::johnsons(n, D1, se, ew); shortest_paths::floyd_warshall(n, D2, se, ew);
+        bool bad = false;
+        for (int i = 0; i < n && !bad; i++) { vector<double> d(n); shortest_paths::dijkstra(i, n, d.data(), se, ew);
+            for (int j = 0; j < n && !bad; j++) {
+                if (!same(D1[i][j], O[i][j])) { ctx.violation("johnsons_wrong", {}, desc, mcx::fmt("D[%d][%d]=%g want %g", i, j, D1[i][j], O[i][j])); bad = true; }
+                else if (!same(D2[i][j], O[i][j])) { ctx.violation("floyd_warshall_wrong", {}, desc, mcx::fmt("D[%d][%d]=%g want %g", i, j, D2[i][j], O[i][j])); bad = true; }
+                else if (!same(d[j], O[i][j])) { ctx.violation("dijkstra_wrong", {}, desc, mcx::fmt("d[%d][%d]=%g want %g", i, j, d[j], O[i][j])); bad = true; }
+                else if (D1[i][j] != D1[j][i] || D2[i][j] != D2[j][i]) { ctx.violation("asymmetric", {}, desc); bad = true; } } }
+        // the layout's D matrix for the same graph (weights as edge lengths; zero lengths are replaced by 1 as documented)
+        if (!bad && n <= 33) { vpsc::Rectangles rs; for (int i = 0; i < n; i++) rs.push_back(new vpsc::Rectangle(i * 50, i * 50 + 10, 0, 10));
+            vector<cola::Edge> ce; cola::EdgeLengths el; vector<E> eff = es; for (auto &e : eff) { ce.push_back({e.u, e.v}); el.push_back(e.w); if (e.w <= 0) e.w = 1; }
+            auto O2 = bellman(n, eff); cola::ConstrainedFDLayout alg(rs, ce, 30, el); vector<double> D = alg.readLinearD();
+            for (int i = 0; i < n && !bad; i++) for (int j = 0; j < n; j++) { double want = (O2[i][j] == DBL_MAX) ? DBL_MAX : (i == j ? 0 : 30 * O2[i][j]); if (!same(D[n * i + j], want)) { ctx.violation("layout_D_wrong", {}, desc, mcx::fmt("D[%d][%d]=%g want %g", i, j, D[n * i + j], want)); bad = true; break; } }
+            for (auto r : rs) delete r; }
+        for (int i = 0; i < n; i++) { delete[] D1[i]; delete[] D2[i]; } delete[] D1; delete[] D2;
+        ctx.done_case();
+    }
+}
 int main(int argc, char **argv) {
     ctx.init(argc, argv);
     if (!ctx.c15()) freopen("/dev/null", "w", stderr);   // ConstrainedFDLayout warns on every non-positive length (under the sanitised build stderr carries the reports)
     bool T = ctx.thorough();
     vector<double> ws = {0, 0.5, 1, 2}, wl = {-1, 0, 0.5, 2};
     run(1, 2, ws, false); run(2, 4, ws, false); run(3, 4, ws, false); run(4, 3, ws, false);
-    run(2, 3, wl, true); run(3, 3, wl, true);
+    run(2, 3, wl, true); run(3, 3, wl, true); families(T);
     if (T) { run(4, 4, ws, false); run(5, 3, ws, false); run(4, 3, wl, true); run(3, 4, wl, true); run(5, 4, {0.5, 1}, false); run(6, 3, {0.5, 1}, false); run(5, 4, ws, false); run(4, 4, wl, true); }
     return ctx.finish();
 }
